@@ -664,6 +664,24 @@ func (w *World) shadowHelpers() map[*ssa.Function]bool {
 				restores = true
 			}
 		}
+		// … or returns the restorer as a method value (`return s.restore`)
+		if !restores {
+			instrsOf(fn, func(in ssa.Instruction) {
+				mc, ok := in.(*ssa.MakeClosure)
+				if !ok || len(mc.Bindings) != 1 {
+					return
+				}
+				bf, ok := mc.Fn.(*ssa.Function)
+				if !ok || bf.Synthetic == "" {
+					return
+				}
+				if m, ok := bf.Object().(*types.Func); ok && m != nil {
+					if w.restorerMethodOf(mc.Bindings[0].Type()) == w.ssaFunc(m) {
+						restores = true
+					}
+				}
+			})
+		}
 		if restores {
 			out[fn] = true
 		}
